@@ -82,6 +82,11 @@ func (s *Sim) oracleC06(op Op, evs []SIEvent) {
 			}
 		}
 	}
+	// ... and reflects the real allocation: what the placeholder held beyond the real allocation is given back
+	// on the queue path, the nodes involved and the user, exactly (nothing else changes usage in this step)
+	if op.Kind == "confirm" && op.Type == "PLACEHOLDER_REPLACED" && s.pre != nil && op.Fault == "" && !s.cfg.Auto {
+		s.swapExact(op)
+	}
 	// replaced never exceeds the number of placeholders of the task group
 	for _, id := range sortedKeys(p.Apps) {
 		a := p.Apps[id]
@@ -165,6 +170,85 @@ func (s *Sim) oracleC06(op Op, evs []SIEvent) {
 			al := p.Nodes[nid].Allocs[k]
 			if al.Placeholder && p.Apps[al.App] == nil {
 				s.violate("C06", "placeholder-outlives-application", "", "node %s still holds placeholder %s of application %s which is gone", nid, k, al.App)
+			}
+		}
+	}
+}
+
+// swapExact: pre and post state of the step in which the shim confirmed the replacement of placeholder op.Key.
+func (s *Sim) swapExact(op Op) {
+	p := s.post
+	pa, a := s.pre.Apps[op.AppID], p.Apps[op.AppID]
+	if pa == nil || a == nil {
+		return
+	}
+	cph := pa.Allocs[op.Key]
+	if cph == nil || cph.ReleaseKey == "" || a.Allocs[op.Key] != nil {
+		return
+	}
+	real := a.Allocs[cph.ReleaseKey]
+	if real == nil || real.Placeholder || pa.Allocs[cph.ReleaseKey] != nil {
+		// the real half did not become an allocation in this step (released, removed): other clauses cover that
+		return
+	}
+	s.probe("swap_exact_checked")
+	freed := cph.Res.Sub(real.Res)
+	if !freed.IsZero() {
+		s.probe("swap_smaller_real")
+	}
+	if real.Node != cph.Node {
+		s.probe("swap_other_node")
+	}
+	for _, path := range ancestors(a.Queue) {
+		pq, q := s.pre.Queues[path], p.Queues[path]
+		if pq == nil || q == nil {
+			continue
+		}
+		if want := pq.Alloc.Sub(freed); !q.Alloc.Eq(want) {
+			s.violate("C06", "swap-usage-not-real", "queue", "confirming the replacement of %s (%s) by %s (%s) took queue %s from %s to %s, expected %s", op.Key, cph.Res, real.Key, real.Res, path, pq.Alloc, q.Alloc, want)
+		}
+	}
+	// nodes: everything held on nodes together shrinks by the placeholder and holds the real allocation once
+	preSum, postSum := Res{}, Res{}
+	for _, nid := range sortedKeys(p.Nodes) {
+		if pn := s.pre.Nodes[nid]; pn != nil {
+			preSum = preSum.Add(pn.Alloc)
+			postSum = postSum.Add(p.Nodes[nid].Alloc)
+		}
+	}
+	if n := p.Nodes[real.Node]; n != nil {
+		if n.Allocs[real.Key] == nil {
+			s.violate("C06", "swap-usage-not-real", "node-missing", "after the confirmed replacement of %s node %s does not hold %s", op.Key, real.Node, real.Key)
+		}
+	}
+	wantN := preSum.Sub(freed)
+	if real.Node != cph.Node {
+		// the real allocation was booked on its own node when the swap was decided
+		wantN = preSum.Sub(cph.Res)
+	}
+	if !postSum.Eq(wantN) {
+		s.violate("C06", "swap-usage-not-real", "node", "confirming the replacement of %s (%s) by %s (%s) took the node total from %s to %s", op.Key, cph.Res, real.Key, real.Res, preSum, postSum)
+	}
+	// user: tracked usage on the queue path equals the live allocations again
+	otherSwap := false
+	for _, n := range p.Nodes {
+		for _, al := range n.Allocs {
+			if s.isInflightRealHalf(al) {
+				otherSwap = true
+			}
+		}
+	}
+	if a.User != "" && !otherSwap {
+		users, _ := snapUGM()
+		if t := users[a.User]; t != nil {
+			for _, path := range ancestors(a.Queue) {
+				if t.Queues[path] == nil {
+					continue
+				}
+				want, _ := s.userUsage(a.User, path, nil)
+				if got := ResFromDAO(t.Queues[path].ResourceUsage); !got.Eq(want) {
+					s.violate("C06", "swap-usage-not-real", "user", "after the confirmed replacement of %s user %s is tracked with %s on %s, its live allocations there sum to %s", op.Key, a.User, got, path, want)
+				}
 			}
 		}
 	}
